@@ -114,3 +114,11 @@ func (t *Ticker) Reset(d time.Duration) {
 }
 
 func Tick(d time.Duration) <-chan time.Time { return NewTicker(d).C }
+
+// SystemClock stands in for cenkalti/backoff's SystemClock (an interface value with Now()), so that
+// the library's elapsed-time accounting follows the virtual clock.
+var SystemClock = vclock{}
+
+type vclock struct{}
+
+func (vclock) Now() time.Time { return Now() }
